@@ -425,11 +425,26 @@ func epBurstOrder(c *RunCtx, cfg burstCfg) *Result {
 			go func(p int) {
 				defer wg.Done()
 				if cfg.Batch && p == 0 {
+					// the first two thirds as one batch, the rest one by one afterwards: a submission made
+					// after AddAll returned must not overtake the batch's tail
 					var items []varmq.Item[int]
+					var mine []int
 					for i := p; i < cfg.N; i += cfg.Prods {
+						mine = append(mine, i)
+					}
+					cut := len(mine) * 2 / 3
+					if len(mine) > 1200 {
+						cut = []int{1025, 1026, 1100, cut}[cfg.N%4]
+					}
+					for _, i := range mine[:cut] {
 						items = append(items, varmq.Item[int]{ID: "", Data: i, Priority: prioOf(i)})
 					}
 					q.AddAll(items)
+					for _, i := range mine[cut:] {
+						if _, ok := q.Add(i, prioOf(i), ""); !ok {
+							e.Fail("C01", "rejected-on-open-queue", "", fmt.Sprintf("add %d rejected", i))
+						}
+					}
 					return
 				}
 				for i := p; i < cfg.N; i += cfg.Prods {
@@ -501,6 +516,12 @@ func burstPrograms(c *RunCtx, nq, nt int) {
 		c.Program(fmt.Sprintf("burst/%d", v), func(p *Prog) {
 			r := p.Rng
 			cfg := burstCfg{WK: Pick(r, WPlain, WErr, WResult), QK: Pick(r, QFifo, QFifo, QPrio), N: sizes[v%len(sizes)], Preload: r.Bool(), Prods: Pick(r, 1, 2, 3, 4, 8), Batch: r.Chance(25)}
+			if v%4 == 3 {
+				// a batch that crosses the first segment boundary, then single submissions behind it
+				cfg.Batch, cfg.QK = true, QFifo
+				cfg.Prods = Pick(r, 1, 1, 2)
+				cfg.N = Pick(r, 3200, 4100, 6000)
+			}
 			if c.Thorough() && v%40 == 39 {
 				cfg.N = Pick(r, 110000, 260000)
 				cfg.QK = QFifo
@@ -596,6 +617,9 @@ func epPurgeBurst(c *RunCtx, wk WK, qk QK, n, batch int) *Result {
 			}) {
 				hangFail(e, "C05", "Wait-after-purge", bid)
 				e.Fail("C10", "purged-waiters-blocked", "burst", desc)
+				if b != nil {
+					e.Fail("C08", "batch-wait-hang", "purge-burst", desc+": the batch's Wait did not return after its pending items were purged")
+				}
 				return
 			}
 			if b != nil && b.NumPending() != 0 {
